@@ -8,6 +8,7 @@ import (
 	"io"
 	"sort"
 	"strings"
+	"sync"
 	"sync/atomic"
 	"time"
 
@@ -224,6 +225,30 @@ func checkLoader(rd io.Reader, recs []rdbgen.Record, desc []string) (sig, what s
 	return "", ""
 }
 
+// compareHeld compares a complete list of delivered records with the generator's expectation (all fields, byte-exact
+// payloads). Empty string = equal.
+func compareHeld(got []*rdb.BinEntry, recs []rdbgen.Record) string {
+	if len(got) != len(recs) {
+		return fmt.Sprintf("%d records delivered, file has %d", len(got), len(recs))
+	}
+	for n, e := range got {
+		x := recs[n]
+		if x.IsScript {
+			if e.Type != rdb.RdbFlagAUX || string(e.Key) != "lua" || !bytes.Equal(e.Value, x.Script) {
+				return fmt.Sprintf("record #%d should be the lua script %q, got type=%#x key=%q value=%q", n, truncB(x.Script, 60), e.Type, truncB(e.Key, 40), truncB(e.Value, 60))
+			}
+			continue
+		}
+		if !bytes.Equal(e.Key, x.Key) || e.DB != x.DB || e.Type != x.Type || e.ExpireAt != x.ExpireAt {
+			return fmt.Sprintf("record #%d is db=%d key=%q type=%d expireat=%d, file has db=%d key=%q type=%d expireat=%d", n, e.DB, truncB(e.Key, 40), e.Type, e.ExpireAt, x.DB, truncB(x.Key, 40), x.Type, x.ExpireAt)
+		}
+		if want := rdbgen.DumpPayload(x.Type, x.ValueBytes, uint16(rdb.ToVersion)); !bytes.Equal(e.Value, want) {
+			return fmt.Sprintf("record #%d (%s, key %q): value payload differs from type ‖ serialized value ‖ version ‖ crc64 of the file's bytes (len %d want %d)", n, x.Encoding, truncB(e.Key, 40), len(e.Value), len(want))
+		}
+	}
+	return ""
+}
+
 func encClass(e string) string {
 	// strip the quicklist node count
 	if strings.HasPrefix(e, "list/quicklist") {
@@ -271,25 +296,54 @@ func c01filesChild(raw json.RawMessage, scratch string) {
 		// path B: the channel used by full sync / restore / decode
 		var rbytes atomic2.Int64
 		ch := utils.NewRDBLoader(bufio.NewReaderSize(bytes.NewReader(data), 4096), &rbytes, rng.Pick(1, 4, 1024))
-		n := 0
-		ok := true
+		// every record is kept until the channel is closed and compared afterwards, the way the tool's consumers see
+		// them: an entry taken off the channel is still in use while the loader parses the following ones
+		var heldB []*rdb.BinEntry
 		for e := range ch {
-			if n < len(recs) {
-				x := recs[n]
-				if !bytes.Equal(e.Key, x.Key) || e.DB != x.DB || e.Type != x.Type {
-					if ok {
-						r.Violationf("C01|channel|outcome=record-differs", d, "NewRDBLoader channel record #%d is db=%d key=%q type=%d, file has db=%d key=%q type=%d", n, e.DB, truncB(e.Key, 40), e.Type, x.DB, truncB(x.Key, 40), x.Type)
+			heldB = append(heldB, e)
+		}
+		if what := compareHeld(heldB, recs); what != "" {
+			r.Violationf("C01|channel|outcome=record-differs", d, "NewRDBLoader channel (records compared after the channel closed): %s", what)
+		}
+		if rbytes.Get() != int64(len(data)) {
+			r.Violationf("C01|channel|outcome=bytes-read-differs", d, "NewRDBLoader consumed %d bytes of a %d byte file", rbytes.Get(), len(data))
+		}
+		// path C: several sources are loaded at the same time (one loader per source / input file)
+		if i%8 == 5 {
+			k := rng.Pick(2, 3, 6)
+			files := make([][]byte, k)
+			exp := make([][]rdbgen.Record, k)
+			files[0], exp[0] = data, recs
+			for q := 1; q < k; q++ {
+				fq := rdbgen.RandFile(rng, rdbgen.FileOpts{MaxKeys: 40, MaxElems: 30, Streams: true, Metadata: true, MultiDB: true, Expiry: true})
+				files[q], exp[q] = rdbgen.Build(rng, fq, 0)
+			}
+			whats := make([]string, k)
+			var wg sync.WaitGroup
+			for q := 0; q < k; q++ {
+				wg.Add(1)
+				go func(q int) {
+					defer wg.Done()
+					var rb atomic2.Int64
+					var src io.Reader = bytes.NewReader(files[q])
+					if q%2 == 1 {
+						src = &oddReader{p: files[q], rng: prng.New(uint64(i*16 + q))}
 					}
-					ok = false
+					var got []*rdb.BinEntry
+					for e := range utils.NewRDBLoader(bufio.NewReaderSize(src, 4096), &rb, 64) {
+						got = append(got, e)
+					}
+					whats[q] = compareHeld(got, exp[q])
+				}(q)
+			}
+			wg.Wait()
+			r.Count("concurrent_loader_groups", 1)
+			for q, w := range whats {
+				if w != "" {
+					r.Violationf("C01|concurrent-loaders|outcome=record-differs", d, "loader %d of %d running at the same time: %s", q, k, w)
+					break
 				}
 			}
-			n++
-		}
-		if n != len(recs) && ok {
-			r.Violationf("C01|channel|outcome=count-differs", d, "NewRDBLoader channel delivered %d records, file has %d", n, len(recs))
-		}
-		if rbytes.Get() != int64(len(data)) && ok {
-			r.Violationf("C01|channel|outcome=bytes-read-differs", d, "NewRDBLoader consumed %d bytes of a %d byte file", rbytes.Get(), len(data))
 		}
 		// evidence
 		encs := map[string]bool{}
@@ -592,6 +646,7 @@ func c01(c *wk.Ctx) {
 	})
 	r.Floor("records", 5000)
 	r.Floor("big_hash_files", 1)
+	r.Floor("concurrent_loader_groups", 100)
 	r.Floor("keys_of_260B_or_more", 30)
 	r.Floor("scripts_of_260B_or_more", 30)
 	r.Floor("lzf_backrefs_beyond_256", 300)
